@@ -116,10 +116,13 @@ def write_pickle(path, names, t, cols):
     df.to_pickle(path)
 
 
-def build_db(case, root):
-    """database described by case['series'] (name, file, t, x, dtg) from case['source'] in {'mem','pkl','ts'}"""
+def build_db(case, root, write=True):
+    """database described by case['series'] (name, file, t, x, dtg) from case['source'] in {'mem','pkl','ts','dat','h5'};
+    write=False: the source files exist already (a second, freshly loaded database on the same files)"""
     from qats import TsDB, TimeSeries
     from qats.io.direct_access import write_ts_data
+    from qats.io.other import write_dat_data
+    from qats.io.sima_h5 import write_data as write_h5
     db = TsDB()
     if case["source"] == "mem":
         for s in case["series"]:
@@ -131,13 +134,20 @@ def build_db(case, root):
     paths = []
     for rel, sers in files.items():
         p = os.path.join(root, "src", rel)
+        paths.append(p)
+        if not write:
+            continue
         os.makedirs(os.path.dirname(p), exist_ok=True)
         t = np.array(sers[0]["t"], dtype=float)
+        recs = OrderedDict((s["name"], (t, np.array(s["x"], dtype=float))) for s in sers)
         if case["source"] == "pkl":
             write_pickle(p, [s["name"] for s in sers], t, [s["x"] for s in sers])
+        elif case["source"] == "dat":
+            write_dat_data(p, t, recs)
+        elif case["source"] == "h5":
+            write_h5(p, recs)
         else:
-            write_ts_data(p, t, OrderedDict((s["name"], (t, np.array(s["x"], dtype=float))) for s in sers))
-        paths.append(p)
+            write_ts_data(p, t, recs)
     db.load(paths)
     return db
 
@@ -861,10 +871,12 @@ def representable(name, ext):
 def gen_e2e(rng, corner=None):
     """one export/reload case (JSON-serialisable)"""
     exact = rng.random() < 0.4
-    source = rng.choice(["mem", "mem", "pkl", "ts"])
+    source = rng.choice(["mem", "mem", "mem", "pkl", "ts", "ts", "dat", "h5"])
     nser = rng.choice([1, 2, 2, 3, 4])
     if source == "mem":
         fam = rng.choice(["ident", "ident", "ident", "lattice", "offlattice", "samespan", "diffdt", "disjoint"])
+    elif source == "h5":
+        fam = rng.choice(["ident", "ident", "lattice", "diffdt"])     # (an h5 source holds start + step: uniform series only)
     else:
         fam = rng.choice(["ident", "ident", "lattice", "diffdt", "samespan"])
     nmax = rng.choice([6, 12, 40, 200])
@@ -880,6 +892,8 @@ def gen_e2e(rng, corner=None):
     ext = rng.choice(EXTS + [".pickle"] if rng.random() < 0.1 else EXTS)
     pool = list(SAFE_NAMES) + (rng.sample(SPACE_NAMES, 2) if rng.random() < 0.3 else [])
     pool = [n for n in pool if representable(n, ext)]        # the property's domain: names representable in the target format
+    if source in ("ts", "dat", "h5"):
+        pool = [n for n in pool if representable(n, "." + source)]      # ... and in the format of the source file
     names = rng.sample(pool, nser)
     series = []
     if source == "mem":
@@ -909,12 +923,16 @@ def gen_e2e(rng, corner=None):
     # selection
     k = rng.random()
     allnames = [s["name"] for s in series]
+    if source != "mem" and len(allnames) > 1:
+        k = 0.25 + 0.75 * k                 # file-backed: more requests that name several series (in any order)
     if k < 0.6:
         select = None
-    elif k < 0.75:
+    elif k < 0.7:
         select = rng.choice(allnames)
     elif k < 0.9:
         select = rng.sample(allnames, rng.randint(1, len(allnames)))
+        if rng.random() < 0.4:
+            select = list(reversed(allnames)) if rng.random() < 0.5 else rng.sample(allnames, len(allnames))
     else:
         select = "*" + rng.choice(allnames)[-1]
     # options
@@ -940,7 +958,14 @@ def gen_e2e(rng, corner=None):
         kwj["window_len"] = 3          # (smoothing of very short arrays changes their length: C11's subject)
     case = dict(kind="e2e", source=source, family=fam, series=series, select=select, kw=kwj, ext=ext,
                 basename=rng.random() < 0.75, force=rng.random() < 0.25, exist_ok=rng.random() < 0.8, preexisting=rng.random() < 0.35,
-                subdir=rng.random() < 0.15, target="out")
+                subdir=rng.random() < 0.15, target="out",
+                # how the target is named: absolute path / bare file name in the working directory / relative path with a directory
+                target_style=rng.choice(["abs", "abs", "abs", "bare", "bare", "rel"]),
+                # what happened to the exporting database before: the selection was retrieved (and stored) / nothing was read yet /
+                # one of the selected series was read and stored
+                history=rng.choice(["read-first", "fresh", "fresh", "partial"]), partial_index=rng.randrange(4))
+    if case["target_style"] == "bare":
+        case["subdir"] = False               # a bare file name has no directory that could be missing
     return case
 
 
